@@ -680,7 +680,7 @@ where
         loop {
             match ex.step().await {
                 Ok(stepexec::Step::Quiescent) => break,
-                Ok(stepexec::Step::Ran { .. }) => {
+                Ok(stepexec::Step::Ran { .. }) | Ok(stepexec::Step::Cancelled { .. }) => {
                     steps += 1;
                     if steps > 200_000 {
                         stall = Some("step budget exhausted".to_string());
